@@ -9,6 +9,7 @@ func init() {
 	extraWorlds["W5"] = worldMarkets
 	extraWorlds["W0"] = worldStartHeightOne
 	extraWorlds["W4"] = worldCrowd
+	extraWorlds["WP"] = worldTinyPools
 }
 
 // worldMarkets: bancor coins of three reserve ratios, tokens, pools (one of them with an order book), a coin that
@@ -82,6 +83,24 @@ func worldCrowd() *World {
 		{Name: "v2", Owner: "o2", Reward: "o2", Control: "o2", Commission: 10, Validator: true, Stakes: []GenStake{{Owner: "o2", Coin: "BIP", Value: "5000u"}}},
 	}
 	w.Coins = []GenCoin{{Symbol: "CRRHUN", Crr: 100, Reserve: "160000u", Max: "10000000u", Owner: "a1"}}
+	withUSDT(w)
+	return w
+}
+
+// worldTinyPools: two tokens P0 < P1 held by a1 and a2 and no pool between them: the behaviours of the pool model (MCPools.tla,
+// amounts of a few hundred pip around the 1000-pip minimum liquidity) are replayed here, where every rounding step shows.
+func worldTinyPools() *World {
+	w := &World{Name: "WP", StakePeriod: 12, ExpirePeriod: 6, InitialHeight: 401}
+	for i := 1; i <= 2; i++ {
+		w.Accounts = append(w.Accounts, GenAccount{Name: fmt.Sprintf("a%d", i), Bal: map[string]string{"BIP": "1000000u", "PZERO": "1000u", "PONE": "1000u"}})
+	}
+	w.Accounts = append(w.Accounts, GenAccount{Name: "o1", Bal: map[string]string{"BIP": "10000u"}})
+	w.Candidates = []GenCandidate{{Name: "v1", Owner: "o1", Reward: "o1", Control: "o1", Commission: 10, Validator: true,
+		Stakes: []GenStake{{Owner: "o1", Coin: "BIP", Value: "5000u"}}}}
+	w.Coins = []GenCoin{
+		{Symbol: "PZERO", Crr: 0, Max: "100000000u", Owner: "a1", Mintable: true, Burnable: true},
+		{Symbol: "PONE", Crr: 0, Max: "100000000u", Owner: "a2", Mintable: true, Burnable: true},
+	}
 	withUSDT(w)
 	return w
 }
